@@ -346,6 +346,10 @@ ABTU_ret_err static inline int ABTI_mem_alloc_ythread_malloc_desc_stack(
 {
     ABTI_ythread *p_ythread;
     void *p_stacktop;
+    /* The stack is allocated with a size rounded up to the cache line size.
+     * Use the rounded size as the stack size since ABTI_mem_free_thread()
+     * computes the head of the allocated memory from it. */
+    stacksize = ABTU_roundup_size(stacksize, ABT_CONFIG_STATIC_CACHELINE_SIZE);
     int abt_errno =
         ABTI_mem_alloc_ythread_malloc_desc_stack_impl(stacksize, &p_ythread,
                                                       &p_stacktop);
